@@ -300,6 +300,37 @@ theorem Rep0.splice {g : MG} {W : List Wire} {body : Wire → List Nd} (r : Rep0
       rintro ⟨_, _, hkk⟩
       exact hk (h3.symm.trans hkk)
 
+/-- no two edges with the same endpoints and key -/
+def trip (e : Edge) : Nd × Nd × Wire := (e.src, e.dst, e.key)
+def TripNodup (g : MG) : Prop := (g.edges.map trip).Nodup
+
+theorem tripNodup_splice {g : MG} {W : List Wire} {body : Wire → List Nd} (r : Rep0 g W body) (h : TripNodup g)
+    (e : Edge) (he : e ∈ g.edges) (id : Nat) (hfresh : Nd.op id ∉ pathOf body e.key) : TripNodup (g.splice e (.op id)) := by
+  unfold TripNodup MG.splice MG.removeEdge
+  refine List.Nodup.sublist (List.Sublist.map _ List.filter_sublist) ?_
+  show ((g.edges ++ [({ src := e.src, dst := Nd.op id, key := e.key } : Edge), ({ src := Nd.op id, dst := e.dst, key := e.key } : Edge)]).map trip).Nodup
+  rw [List.map_append, List.nodup_append]
+  have hdst : e.dst ∈ pathOf body e.key := adj_mem_right (r.edge_sound0 e he).2
+  have hxd : Nd.op id ≠ e.dst := fun h' => hfresh (h' ▸ hdst)
+  refine ⟨h, ?_, ?_⟩
+  · simp only [List.map_cons, List.map_nil, trip, List.nodup_cons, List.mem_singleton, Prod.mk.injEq, List.not_mem_nil,
+      not_false_eq_true, List.nodup_nil, and_true]
+    intro hh
+    exact hxd hh.2
+  · intro a ha b hb hab
+    obtain ⟨e0, he0, rfl⟩ := List.mem_map.1 ha
+    simp only [List.map_cons, List.map_nil, List.mem_cons, List.not_mem_nil, or_false] at hb
+    obtain ⟨hk0, hadj0⟩ := r.edge_sound0 e0 he0
+    rcases hb with rfl | rfl
+    · simp only [trip, Prod.mk.injEq] at hab
+      apply hfresh
+      rw [← hab.2.2, ← hab.2.1]
+      exact adj_mem_right hadj0
+    · simp only [trip, Prod.mk.injEq] at hab
+      apply hfresh
+      rw [← hab.2.2, ← hab.1]
+      exact adj_mem_left hadj0
+
 /-! ## `MG.add` -/
 
 theorem adj_last (l : List Nd) (a z s : Nd) (hn : (l ++ [a, z]).Nodup) (h : Adj (l ++ [a, z]) s z) : s = a := by
@@ -337,19 +368,22 @@ theorem SameNodes.opOf {a b : MG} (h : SameNodes a b) : b.opOf = a.opOf := by
 /-- the splices of `_add`: the new node goes to the end of the path of each of its registers -/
 theorem add_splices (id : Nat) (o : Op) (W : List Wire) :
     ∀ (ws : List Wire) (g : MG) (body : Wire → List Nd), Rep0 g W body → ws.Nodup →
-      (∀ w ∈ ws, w ∈ W ∧ w ∈ opWires o ∧ Nd.op id ∉ pathOf body w) → g.opOf (.op id) = some (.gate o) →
+      (∀ w ∈ ws, w ∈ W ∧ w ∈ opWires o ∧ Nd.op id ∉ pathOf body w) → g.opOf (.op id) = some (.gate o) → TripNodup g →
       ∃ body', Rep0 (ws.foldl (fun g w => match g.inEdge (.out w) w with
           | some e => g.splice e (.op id)
           | none => g) g) W body' ∧
         (∀ w ∈ ws, body' w = body w ++ [.op id]) ∧ (∀ w, w ∉ ws → body' w = body w) ∧
         SameNodes g (ws.foldl (fun g w => match g.inEdge (.out w) w with
           | some e => g.splice e (.op id)
+          | none => g) g) ∧
+        TripNodup (ws.foldl (fun g w => match g.inEdge (.out w) w with
+          | some e => g.splice e (.op id)
           | none => g) g) := by
   intro ws
   induction ws with
-  | nil => intro g body r _ _ _; exact ⟨body, r, by simp, fun _ _ => rfl, SameNodes.refl g⟩
+  | nil => intro g body r _ _ _ ht; exact ⟨body, r, by simp, fun _ _ => rfl, SameNodes.refl g, ht⟩
   | cons w ws' ih =>
-    intro g body r hnd hws hxo
+    intro g body r hnd hws hxo ht
     obtain ⟨hwW, hwo, hfresh⟩ := hws w (by simp)
     -- the last edge of the path of `w`
     obtain ⟨l1, u, hl1⟩ : ∃ l1 u, Nd.inp w :: body w = l1 ++ [u] := by
@@ -382,7 +416,8 @@ theorem add_splices (id : Nat) (o : Op) (W : List Wire) :
     have r' := r.splice e he id o hxo (by rw [hek]; exact hwo) (by rw [hek]; exact hfresh) l1 [] h12
       (upd body w (body w ++ [Nd.op id])) hp' (fun w' hw' => upd_other body w w' _ (by rw [← hek]; exact hw'))
     have hnd' := List.nodup_cons.1 hnd
-    obtain ⟨body'', r'', hin, hout, hsn⟩ := ih (g.splice e (.op id)) _ r' hnd'.2
+    have ht' : TripNodup (g.splice e (.op id)) := tripNodup_splice r ht e he id (by rw [hek]; exact hfresh)
+    obtain ⟨body'', r'', hin, hout, hsn, ht''⟩ := ih (g.splice e (.op id)) _ r' hnd'.2
       (by
         intro w' hw'
         obtain ⟨a, b, c⟩ := hws w' (List.mem_cons_of_mem _ hw')
@@ -391,8 +426,8 @@ theorem add_splices (id : Nat) (o : Op) (W : List Wire) :
         unfold pathOf
         rw [upd_other body w w' _ hne]
         exact c)
-      (by rw [opOf_splice]; exact hxo)
-    refine ⟨body'', r'', ?_, ?_, ?_⟩
+      (by rw [opOf_splice]; exact hxo) ht'
+    refine ⟨body'', r'', ?_, ?_, ?_, ht''⟩
     · intro w' hw'
       rcases List.mem_cons.1 hw' with rfl | h
       · rw [hout _ hnd'.1, upd_same]
@@ -440,11 +475,11 @@ def wireOps (g : MG) (body : Wire → List Nd) (w : Wire) : List Op := (body w).
 /-- **`CircuitDAG.add` on existing registers appends a fresh node to the path of each of its registers** -/
 theorem Rep0.add {g : MG} {W : List Wire} {body : Wire → List Nd} (r : Rep0 g W body) (o : Op)
     (hW : ∀ w ∈ opWires o, w ∈ W) (hon : (opWires o).Nodup) (hreg : ∀ w ∈ W, RegOK g w)
-    (hid : ∀ n ∈ g.nodes.map (·.1), ∀ k, n = .op k → k ≤ g.nodeId) :
+    (hid : ∀ n ∈ g.nodes.map (·.1), ∀ k, n = .op k → k ≤ g.nodeId) (ht : TripNodup g) :
     ∃ g' body', g.add o = .ok g' ∧ Rep0 g' W body' ∧
       (∀ w, body' w = body w ++ (if w ∈ opWires o then [.op (g.nodeId + 1)] else [])) ∧
       g'.nodes = g.nodes ++ [(.op (g.nodeId + 1), .gate o)] ∧ g'.nodeId = g.nodeId + 1 ∧
-      g'.ne = g.ne ∧ g'.np = g.np ∧ g'.nc = g.nc := by
+      g'.ne = g.ne ∧ g'.np = g.np ∧ g'.nc = g.nc ∧ TripNodup g' := by
   have hc : (o.cRegs.map fun i => (⟨.c, i⟩ : Wire)).foldlM MG.addRegIfAbsent g = .ok g := by
     apply foldlM_ok_const
     intro w hw
@@ -465,14 +500,14 @@ theorem Rep0.add {g : MG} {W : List Wire} {body : Wire → List Nd} (r : Rep0 g 
   have r1 : Rep0 (g.addNode (g.nodeId + 1) (.gate o)) W body := r.addNode _ o hon
   have hxo : (g.addNode (g.nodeId + 1) (.gate o)).opOf (.op (g.nodeId + 1)) = some (.gate o) := by
     rw [opOf_addNode, opOf_none_of_not_mem g _ hfreshN]; simp
-  obtain ⟨body', r', hin, hout, hsn⟩ := add_splices (g.nodeId + 1) o W (opWires o) _ body r1 hon
+  obtain ⟨body', r', hin, hout, hsn, ht'⟩ := add_splices (g.nodeId + 1) o W (opWires o) _ body r1 hon
     (by
       intro w hw
       refine ⟨hW w hw, hw, ?_⟩
       intro hmem
       exact hfreshN (r.path_mem_nodes w (hW w hw) _ hmem))
-    hxo
-  refine ⟨_, body', ?_, r', ?_, hsn.1, hsn.2.1, hsn.2.2.1, hsn.2.2.2.1, hsn.2.2.2.2⟩
+    hxo ht
+  refine ⟨_, body', ?_, r', ?_, hsn.1, hsn.2.1, hsn.2.2.1, hsn.2.2.2.1, hsn.2.2.2.2, ht'⟩
   · unfold MG.add
     rw [hc]
     simp only [bind, Except.bind, hq, pure, Except.pure]
